@@ -183,6 +183,12 @@ func zzvRegNewWorld(t testing.TB) *zzvRegWorld {
 	}
 	m.Net.mu.Lock()
 	m.Net.holdNew = true
+	// node-info advertisements (periodic / triggered some time after a connection comes up) are not part of the
+	// model and would sit in front of the modelled frames on a held link: they are not carried between a and b
+	m.Net.filter = func(f *zzvFrame) bool {
+		ab := (f.From == "A" && f.To == "B") || (f.From == "B" && f.To == "A")
+		return !(ab && f.Type == protocol.FrameNodeInfoAdvertise)
+	}
 	w.base = len(m.Net.links)
 	m.Net.mu.Unlock()
 	w.mu.Lock()
@@ -502,27 +508,7 @@ func (w *zzvRegWorld) awaitRegister(x string, l int, before int, _ int) {
 		w.mu.Unlock()
 		// the new read loop must be blocked in Read before the schedule goes on: a read loop that finds its
 		// connection already closed when it starts ends without a teardown (a behaviour the spec does not model)
-		started := false
-		for dl := time.Now().Add(15 * time.Second); time.Now().Before(dl); time.Sleep(150 * time.Microsecond) {
-			// every kept connection that has not been closed has a read loop blocked in Read (plus the C-A link's)
-			w.mu.Lock()
-			live := 0
-			for kc := range w.kept {
-				select {
-				case <-kc.Done():
-				default:
-					live++
-				}
-			}
-			w.mu.Unlock()
-			if zzvBlockedReadLoops() >= w.idleReaders+live {
-				started = true
-				break
-			}
-		}
-		if !started {
-			w.fatalf("read loop of %s for link %d did not start reading", x, l)
-		}
+		w.awaitReaders(fmt.Sprintf("read loop of %s for link %d did not start reading", x, l))
 		return
 	}
 	// rejected duplicate: probe that nothing arriving on it is ever delivered.  A harmless frame (a control
@@ -556,6 +542,30 @@ func (w *zzvRegWorld) awaitRegister(x string, l int, before int, _ int) {
 		w.oracle = append(w.oracle, fmt.Sprintf("dead frames: a frame arriving on the duplicate connection %d that %s rejected was read (%d bytes) / processed (%d frames)",
 			l, x, inBefore+len(raw)-inAfter, after-procBefore))
 	}
+}
+
+// awaitReaders waits until the read loop of every kept, not yet closed connection is blocked in Read (plus the two
+// of the C-A link).  A read loop that is between two frames when its connection gets closed ends through
+// conn.Done() without a teardown - legal, but not a behaviour the spec models - so the schedule only goes on (and
+// in particular only closes connections) when all read loops are parked in Read, where a close always leads them
+// to the teardown.
+func (w *zzvRegWorld) awaitReaders(what string) {
+	for dl := time.Now().Add(15 * time.Second); time.Now().Before(dl); time.Sleep(150 * time.Microsecond) {
+		w.mu.Lock()
+		live := 0
+		for kc := range w.kept {
+			select {
+			case <-kc.Done():
+			default:
+				live++
+			}
+		}
+		w.mu.Unlock()
+		if zzvBlockedReadLoops() >= w.idleReaders+live {
+			return
+		}
+	}
+	w.fatalf("%s", what)
 }
 
 // zzvBlockedReadLoops counts peer.Manager.readLoop goroutines that are blocked reading an in-memory link.
@@ -598,6 +608,7 @@ func (w *zzvRegWorld) duplicateOracle(x string, before *peer.Connection) {
 // apply performs one spec action on the real agents. errZZVNA: the action is not possible in the real state.
 func (w *zzvRegWorld) apply(a zzvRegAct) error {
 	w.oracle = nil
+	w.awaitReaders("read loops did not return to Read before " + a.Act)
 	switch a.Act {
 	case "Dial":
 		x := a.X
@@ -838,6 +849,7 @@ func (w *zzvRegWorld) apply(a zzvRegAct) error {
 
 // endPath closes everything between a and b and waits until both agents are back in the initial state.
 func (w *zzvRegWorld) endPath() {
+	w.awaitReaders("read loops did not return to Read before the end of the path")
 	w.mu.Lock()
 	w.gating = false
 	for c, ch := range w.parked {
